@@ -11,7 +11,7 @@ import itertools
 import z3
 
 FAMILIES = {
-    "sin": "sin^2+cos^2=1, |sin|,|cos|<=1, sign of sin/cos on the quadrants of [-pi,pi], values at 0, +-pi/2, pi; Lipschitz bounds |sin t|<=|t|, |sin t|<=|t-+pi|, |cos t|<=|t-+pi/2|; shift/reflection laws for pairs of arguments whose difference or sum is 0, +-pi/2, +-pi, 2pi",
+    "sin": "sin^2+cos^2=1, |sin|,|cos|<=1, sign of sin/cos on the quadrants of [-pi,pi], values at 0, +-pi/2, pi; Lipschitz bounds |sin t|<=|t|, |sin t|<=|t-+pi|, |cos t|<=|t-+pi/2|; periodicity under whole turns (optional); shift/reflection laws for pairs of arguments whose difference or sum is 0, +-pi/2, +-pi, 2pi",
     "cos": "see sin",
     "tan": "tan*cos=sin",
     "sqrt": "x>=0 -> sqrt(x)>=0 and sqrt(x)^2=x; monotone on pairs",
@@ -125,6 +125,10 @@ def instantiate(ctx, start):
                 pi = ctx.pi().t
                 d, sm = t1 - t2, t1 + t2
                 out.append(z3.Implies(z3.Or(d == 2 * pi, d == -2 * pi, d == 0), z3.And(s1 == s2, k1 == k2)))
+                if ctx.opts.get("ax_periodic"):
+                    # periodicity for any whole number of turns (used with angle-unit normalisation, where it is linear)
+                    q = z3.simplify(ctx.N(d / (2 * pi)))
+                    out.append(z3.Implies(q == z3.ToReal(z3.ToInt(q)), z3.And(s1 == s2, k1 == k2)))
                 out.append(z3.Implies(z3.Or(d == pi, d == -pi), z3.And(s1 == -s2, k1 == -k2)))
                 out.append(z3.Implies(d == pi / 2, z3.And(s1 == k2, k1 == -s2)))
                 out.append(z3.Implies(d == -pi / 2, z3.And(s1 == -k2, k1 == s2)))
